@@ -551,6 +551,63 @@ fn identical_members_case<P: G>(cfg: Cfg) -> Box<dyn Case> {
     })
 }
 
+/// Every member's challenges depend on ITS OWN commitment generators: a batch in which a later member's statement declares a
+/// generator vector that differs from the first member's in ONE position (the others equal) is refused, and if the verifier
+/// derives challenges for that member at all they are not those of the unaltered statement
+fn batch_generator_case<P: G>(d: usize) -> Box<dyn Case> {
+    case(format!("{}/d={}/batch-own-generators", P::NAME, d), move |_v| {
+        fg::clear_intern();
+        let mut res = CaseResult::new("explored");
+        let cfg = Cfg::new(2, 1, 1, d);
+        let w0 = Wit::default_for(&cfg);
+        let mut w1 = Wit::default_for(&cfg);
+        w1.values[0] = 2;
+        w1.blindings[0][0] = blinding(7100, 0);
+        let b0 = build_cached::<P>(&cfg, &w0).honest();
+        let b1 = build_cached::<P>(&cfg, &w1).honest();
+        let p0 = lib_prove_honest(&b0, &CTX_A, &mut HRng::chacha(1));
+        let p1 = lib_prove_honest(&b1, &CTX_A, &mut HRng::chacha(2));
+        let pc = b0.params.pc_gens().clone();
+        let mut variants: Vec<(String, tari_bulletproofs_plus::generators::pedersen_gens::PedersenGens<P>)> = Vec::new();
+        for k in 0..d {
+            let mut g = pc.g_base_vec.clone();
+            g[k] = g[k].g_add(&pc.h_base);
+            variants.push((format!("G{}", k), pc_gens_from(pc.h_base.clone(), g)));
+        }
+        variants.push(("H".into(), pc_gens_from(pc.h_base.g_add(&pc.g_base_vec[0]), pc.g_base_vec.clone())));
+        for (what, pc2) in variants {
+            // member 1's statement over the altered generators (same commitments: the proof is the honest one for the unaltered
+            // statement, so only a verifier that hashes member 0's generators for member 1 can accept)
+            let params2 = match P::params(cfg.n, cfg.c, pc2) {
+                Ok(p) => p,
+                Err(_) => continue,
+            };
+            let st1 = match P::statement(params2, b1.commitments.clone(), w1.promises.clone(), None) {
+                Ok(s) => s,
+                Err(_) => continue,
+            };
+            for (name, sts, proofs) in [
+                ("altered-second", vec![b0.statement.clone(), st1.clone()], vec![P::proof_clone(&p0), P::proof_clone(&p1)]),
+                ("altered-first", vec![st1.clone(), b0.statement.clone()], vec![P::proof_clone(&p1), P::proof_clone(&p0)]),
+            ] {
+                res.transitions += 1;
+                let mut ts = vec![CTX_A.transcript(), CTX_A.transcript()];
+                let obs = verify_observed(&sts, &proofs, &mut ts, VerifyAction::VerifyOnly);
+                res.executions += 1;
+                res.validated += 1;
+                *res.outcome_counter(&format!("own-generators:{}", obs.class())) += 1;
+                if !obs.is_err() {
+                    res.violate(
+                        format!("{}/{}", what, name),
+                        format!("a batch in which one member's statement declares another {} (everything else equal) was not refused: {}", what, obs.describe()),
+                    );
+                }
+            }
+        }
+        res
+    })
+}
+
 pub fn run(rep: &mut Report) {
     rep.rule = "configuration lattice x roles {prover, verifier} x every (datum, challenge) pair: (1) trace binding -- the multiset of data \
                 absorbed into the caller's transcript before each of the 3+k challenge draws contains every datum that must precede it \
@@ -576,6 +633,10 @@ pub fn run(rep: &mut Report) {
     for cfg in [Cfg::new(2, 1, 1, 1), Cfg::new(8, 2, 2, 2), Cfg::new(64, 1, 2, 1)] {
         cases.push(identical_members_case::<F>(cfg));
         cases.push(identical_members_case::<RistrettoPoint>(cfg));
+    }
+    for d in [1usize, 2, 3, 6] {
+        cases.push(batch_generator_case::<F>(d));
+        cases.push(batch_generator_case::<RistrettoPoint>(d));
     }
     for sizes in ["larger-second", "larger-last"] {
         for len in [2usize, 3] {
